@@ -1086,9 +1086,12 @@ where
             #[cfg(mini_mcmc_verif)]
             let verif_n_first = n_prime;
             #[cfg(mini_mcmc_verif)]
-            let verif_took =
-                u_build_tree < (n_prime_2 as f64 / (n_prime + n_prime_2).max(1) as f64);
+            let mut verif_took = false;
             if u_build_tree < (n_prime_2 as f64 / (n_prime + n_prime_2).max(1) as f64) {
+                #[cfg(mini_mcmc_verif)]
+                {
+                    verif_took = true;
+                }
                 position_prime = position_prime_2;
                 grad_prime = grad_prime_2;
                 logp_prime = logp_prime_2;
